@@ -61,6 +61,21 @@ def template_init(j=0):
     from . import mcsim
     import matplotlib.pyplot as plt
     mcsim._stub_pyplot(plt)
+    # observation point (no repository change): did the simulation proper - Model.Calculate - complete during an operation?
+    # C20's "no report when the simulation fails" is judged only for failures before that point; a failure inside the
+    # report writer itself necessarily leaves the part of the report it had already written
+    try:
+        import geophires_x.Model as _M
+        _real_calc = _M.Model.Calculate
+
+        def Calculate(self, *a, **kw):
+            r = _real_calc(self, *a, **kw)
+            _state['calc_done'] = _state.get('calc_done', 0) + 1
+            return r
+        _M.Model.Calculate = Calculate
+        _state['calc_hook'] = True
+    except Exception:  # noqa: BLE001
+        _state['calc_hook'] = False
     _state['templates'] = HW.load_templates()
     _state['ranges'] = HW.declared_ranges()
     _state['pkg_listing'] = None
@@ -659,6 +674,7 @@ class Exec:
             arg, report_path, json_path = self.out_paths(op['out'], cwd)
         relinput = entry == 'cli' and self.cs.choose(2, 'relinput') == 1
         pre = {x: _file_sha(x) for x in (report_path, json_path) if x}
+        calc0 = _state.get('calc_done', 0)
         if report_path and pre.get(report_path):
             self.probe('report_already_present_before_run')
         served_from_cache = False
@@ -770,7 +786,12 @@ class Exec:
             elif exp['outcome'] != 'ok' and not fired:
                 # a report may legitimately sit there from an earlier successful run; the failing run must not create or touch one
                 if rp_exists and _file_sha(report_path) != pre.get(report_path):
-                    self.V('C20', 'report_written_on_failure', f'{entry}', f'failing run wrote a report at {report_path.replace(self.sb, "$SB")}')
+                    if _state.get('calc_hook') and _state.get('calc_done', 0) == calc0:
+                        self.V('C20', 'report_written_on_failure', f'{entry}',
+                               f'the simulation failed before its calculation completed, yet the run wrote a report at {report_path.replace(self.sb, "$SB")}')
+                    else:
+                        # the calculation completed and the report writer itself failed part-way: outside the clause
+                        self.probe('report_writer_failed_midway')
             # a failing run whose expected outcome is ok but that failed through exit_status is already reported
             if entry == 'cli' and exp['outcome'] == 'ok' and outcome == 'raised' and not fired and rp_exists and not jp_exists:
                 self.V('C20', 'missing_json', f'{entry}_{op["out"]}',
